@@ -1009,8 +1009,9 @@ def run_shard(shard, rec):
 def required(agg, tier):
     miss = []
     cl = agg['classes']
+    no_reset = 'memo reset unavailable' in agg.get('notes', {})      # refactored memo: behavioural passes stay required
     for name in ALL:
-        for pas in ('asc', 'desc', 'reset'):
+        for pas in (('asc', 'desc') if no_reset else ('asc', 'desc', 'reset')):
             if not any(k.startswith('%s/%s/' % (name, pas)) for k in cl):
                 miss.append('constant %s never observed in the %s pass' % (name, pas))
     for name in IV_NAMES:
